@@ -20,7 +20,7 @@ func c17(tier string) []*explore.Scenario {
 		bound = 2
 	}
 	out = append(out, c17Spoof())
-	for _, role := range []string{"none", "stuck-writer", "failing-reader", "failing-writer", "dial-error", "slow-dial"} {
+	for _, role := range []string{"none", "stuck-writer", "failing-reader", "failing-writer", "failing-both", "dial-error", "slow-dial"} {
 		out = append(out, c17BadPeer(role, bound))
 	}
 	for _, when := range []string{"before-old-fails", "after-old-fails"} {
@@ -121,6 +121,10 @@ func c17BadPeer(role string, bound int) *explore.Scenario {
 			case "failing-writer":
 				t.Extra["c"] = pc
 				pc.A.WriteFailAt = 0
+			case "failing-both":
+				t.Extra["c"] = pc
+				pc.A.WriteFailAt = 0
+				pc.A.ReadFailAfter = 0
 			case "dial-error":
 				t.DialErr["c"] = errors.New("no route to c")
 			case "slow-dial":
@@ -156,7 +160,7 @@ func c17BadPeer(role string, bound int) *explore.Scenario {
 				}
 			}
 			switch role {
-			case "failing-reader", "failing-writer", "dial-error":
+			case "failing-reader", "failing-writer", "failing-both", "dial-error":
 				n := 0
 				for _, d := range t.Disconnects {
 					if d == "c" {
@@ -170,6 +174,16 @@ func c17BadPeer(role string, bound int) *explore.Scenario {
 			for _, d := range t.Disconnects {
 				if d != "c" {
 					vsched.Fail(fam+"|healthy-peer-disconnected", "healthy peer %s was reported disconnected", d)
+				}
+			}
+			// a failed connection is removed: later traffic for c is dialled afresh
+			if role == "failing-reader" || role == "failing-writer" || role == "failing-both" {
+				before := countStr(t.Dialed, "c")
+				peers["a"].A.Inject(c17Msg(60, "a", "c"))
+				vsched.Quiesce()
+				after := countStr(t.Dialed, "c")
+				if after != before+1 {
+					vsched.Fail(fam+"|failed-connection-not-removed", "connection c failed (%s) but a later envelope for c did not lead to a new dial (dials before %d, after %d; disconnects %v)", role, before, after, t.Disconnects)
 				}
 			}
 			if role == "slow-dial" {
@@ -299,4 +313,14 @@ func c17Shutdown(step, bound int) *explore.Scenario {
 			}
 		},
 	}
+}
+
+func countStr(l []string, s string) int {
+	n := 0
+	for _, x := range l {
+		if x == s {
+			n++
+		}
+	}
+	return n
 }
